@@ -355,14 +355,21 @@ class BaseDetector(BaseEstimator):
         if y is not None:
             y = check_series(y, allow_index_names=True)
 
-        self._X = X.combine_first(self._X)
+        self._X = self._as_pandas(X).combine_first(self._as_pandas(self._X))
 
         if y is not None:
-            self._y = y.combine_first(self._y)
+            self._y = self._as_pandas(y).combine_first(self._as_pandas(self._y))
 
         self._update(X=X, y=y)
 
         return self
+
+    @staticmethod
+    def _as_pandas(X):
+        """Wrap array input in a DataFrame so that it can be combined by index."""
+        if X is None or isinstance(X, (pd.Series, pd.DataFrame)):
+            return X
+        return pd.DataFrame(X)
 
     def _update(self, X, y=None):
         """Update model with new data and optional ground truth detections.
